@@ -54,7 +54,8 @@ def battery(seed, n=24):
     for i in range(n):
         N = [6, 5, 8, 7, 4, 9, 3, 10][i % 8]
         L = [Fraction(1), Fraction(3), Fraction(25, 4), Fraction(7, 2)][i % 4]
-        yield {"N": Fraction(N), "L": L, "dt": Fraction([1, 7, 3][i % 3], 10), "C": Fraction(1 + i % 2), "E": Fraction(1),
+        # (every fourth configuration takes a large step: |dt * symbol| well beyond pi, where branch cuts and stiffness show)
+        yield {"N": Fraction(N), "L": L, "dt": Fraction(7) if i % 4 == 3 else Fraction([1, 7, 3][i % 3], 10), "C": Fraction(1 + i % 2), "E": Fraction(1),
                "M": Fraction([16, 7][i % 2]), "r": Fraction(1), "kinj": Fraction(1 + i % 2), "n": Fraction(2 + i % 3),
                "__rnd__": rnd.random()}
 
@@ -248,7 +249,18 @@ def native_random():
         jr.split, jr.uniform, jr.normal = saved
 
 
-HISTORY = {"second call": {"real": "~2", "int": ""}, "third call": {"real": "", "int": "~3"}}
+def history_of(name):
+    """the renaming plan of a history obligation (contracts.verify_contract), recovered from its name"""
+    m = re.search(r"\[later call, only '([^']+)' changed", name or "")
+    if m:
+        return {"only": {m.group(1)}, "suffix": "~2"}
+    if "[later call, only the array inputs changed" in (name or ""):
+        return {"only": {"<arrays>"}, "suffix": "~a"}
+    if "[second call" in (name or ""):
+        return {"real": "~r", "int": "", "array": "~r"}
+    if "[third call" in (name or ""):
+        return {"real": "", "int": "~i", "array": ""}
+    return None
 
 
 def run_native(c, case, concrete, seed=0, history=None):
@@ -264,7 +276,7 @@ def run_native(c, case, concrete, seed=0, history=None):
     smt.NATIVE_REPLAY[0] = True
     try:
         frame.reset()
-        if history in HISTORY:
+        if history:
             try:
                 b0 = case.build(eng)
                 a0, k0 = (b0[0], b0[1]) if isinstance(b0, tuple) and len(b0) >= 2 and isinstance(b0[1], dict) else (b0, {})
@@ -273,7 +285,7 @@ def run_native(c, case, concrete, seed=0, history=None):
                     (c.invoke or c.orig)(*_to_native(tuple(a0), env0), **_to_native(dict(k0), env0))
             except Exception:
                 pass
-            eng.sym_rename = HISTORY[history]
+            eng.sym_rename = history
         try:
             built = case.build(eng)
         except engine.PathAbort:
@@ -359,7 +371,7 @@ def replay_obligation(ob, seed=0, max_battery=16):
         cands.append(dict(mv, __src__="solver model"))
     for b in battery(seed, max_battery):
         cands.append(dict(b, __src__="battery"))
-    hist = next((h for h in HISTORY if f"[{h}" in (ob.get("name") or "")), None)
+    hist = history_of(ob.get("name"))
     for cand in cands:
         src = cand.pop("__src__")
         try:
